@@ -79,6 +79,14 @@ def warnings_of():
     return tuple(_warnings)
 
 
+_warnings_at = []
+
+
+def warnings_at():
+    """for every warning issued: the number of recorded external calls (transfers) made before it"""
+    return tuple(_warnings_at)
+
+
 def real(x):
     from fractions import Fraction
     return Fraction(x)
